@@ -1,10 +1,12 @@
 import Driver.Util
 import Driver.C13
+import Driver.C14
 open Lean
 
 def dispatch (p : String) (inp obs : Json) : Drv.Res :=
   match p with
   | "C13" => Drv.c13 inp obs
+  | "C14" => Drv.c14 inp obs
   | _ => { agree := false, specOk := false, why := s!"unknown property {p}" }
 
 def handleLine (line : String) : String :=
